@@ -192,6 +192,8 @@ type c03Case struct {
 	Deep int `json:"deep,omitempty"`
 	// Opt: receive options other than the default: "meta" (metadata-only, everything selected), "meta-merge"
 	Opt string `json:"opt,omitempty"`
+	// Late: see hostile.late
+	Late bool `json:"late,omitempty"`
 }
 
 func deepParent(n int) string {
@@ -266,6 +268,9 @@ func (c c03Case) String() string {
 	if c.Opt != "" {
 		deep += " options=" + c.Opt
 	}
+	if c.Late {
+		deep += " late-content-after-served-requests"
+	}
 	return fmt.Sprintf("script=[%s] prior=%s answer-reqs=%v cooperative-tail=%v%s", strings.Join(s, "; "), c.Prior, c.Answer, c.Coop, deep)
 }
 
@@ -282,6 +287,10 @@ type hostile struct {
 	closing bool
 	idle    chan struct{} // closed when the peer has consumed the script and waits for more
 	idled   bool
+	// late: requests are answered with the terminator alone (the files stay empty), and when the receiver's FIN arrives
+	// - all of its writers have finished - content for every id it had requested is sent before the FIN is echoed
+	late     bool
+	lateSent int
 }
 
 func (h *hostile) Context() context.Context { return context.Background() }
@@ -318,13 +327,21 @@ func (h *hostile) SendMsg(m interface{}) error {
 	defer h.mu.Unlock()
 	if p.Type == types.PACKET_REQ {
 		h.sentReq = append(h.sentReq, p.ID)
-		if h.answer {
+		if h.late {
+			h.queue = append([]*types.Packet{{Type: types.PACKET_DATA, ID: p.ID}}, h.queue...)
+		} else if h.answer {
 			h.queue = append([]*types.Packet{{Type: types.PACKET_DATA, ID: p.ID, Data: []byte("EVIL-PAYLOAD")}, {Type: types.PACKET_DATA, ID: p.ID}}, h.queue...)
 		}
 	}
 	if h.coop {
 		switch p.Type {
 		case types.PACKET_FIN:
+			if h.late {
+				for _, id := range h.sentReq {
+					h.queue = append(h.queue, &types.Packet{Type: types.PACKET_DATA, ID: id, Data: []byte("LATE-PAYLOAD")}, &types.Packet{Type: types.PACKET_DATA, ID: id})
+					h.lateSent++
+				}
+			}
 			h.queue = append(h.queue, &types.Packet{Type: types.PACKET_FIN})
 			h.closing = true
 		case types.PACKET_ERR:
@@ -468,7 +485,7 @@ func judgeC03(root string, c c03Case) (string, string) {
 		return "infra", err.Error()
 	}
 	destBefore, _ := fsmodel.Snapshot(dest)
-	h := &hostile{answer: c.Answer || c.Coop, eof: make(chan struct{}), idle: make(chan struct{}), coop: c.Coop}
+	h := &hostile{answer: c.Answer || c.Coop, eof: make(chan struct{}), idle: make(chan struct{}), coop: c.Coop, late: c.Late}
 	h.cond = sync.NewCond(&h.mu)
 	// A FIN from the peer that precedes the receiver's own FIN makes the receive loop read (and drop)
 	// everything up to end of stream and return nil, while the differ still waits for the end marker
@@ -510,6 +527,8 @@ func judgeC03(root string, c c03Case) (string, string) {
 			// a selector that leaves out a and everything below it
 			opt.MetadataOnly = func(p string, _ *types.Stat) bool { return p != "a" && !strings.HasPrefix(p, "a/") }
 			opt.Merge = true
+		case "diffnone":
+			opt.Differ = fsutil.DiffNone
 		case "merge":
 			opt.Merge = true
 		case "merge-filter-a":
@@ -578,6 +597,23 @@ func judgeC03(root string, c c03Case) (string, string) {
 			return "infra", "rebuild: " + e.Error()
 		}
 		return "outside-changed", fmt.Sprintf("something outside the destination changed (Receive returned %v): %s", rerr, lineDiff(before, after))
+	}
+	// content for an id whose request has been served and closed (sent when the receiver's own FIN shows that every
+	// writer of it has finished) => failure, and nothing of it stored
+	if c.Late {
+		h.mu.Lock()
+		n := h.lateSent
+		h.mu.Unlock()
+		if n > 0 && rerr == nil {
+			return "late-data-accepted", fmt.Sprintf("content for %d ids was sent after their requests had been served and the receiver had sent FIN, but Receive returned nil", n)
+		}
+		if after, err := fsmodel.Snapshot(dest); err == nil {
+			for _, a := range after {
+				if strings.Contains(string(a.Data), "LATE-PAYLOAD") {
+					return "late-data-accepted", fmt.Sprintf("%s holds content that was sent after its request had been served", a.Path)
+				}
+			}
+		}
 	}
 	// content for an id that cannot have been requested (id 7 with at most 3 STATs) => failure
 	for _, sy := range script {
@@ -792,6 +828,33 @@ func childC03(args []string) int {
 			}
 		}
 	}
+	// late content: every script of length <=2 made of STATs, cooperative tail, requests answered with empty files
+	for _, sc := range c03Scripts(tier, 2) {
+		stats := len(sc) > 0
+		for _, sy := range sc {
+			stats = stats && sy.T == "stat"
+		}
+		if !stats {
+			continue
+		}
+		for _, pr := range []string{"empty", "a-file"} {
+			i++
+			if i%n != shard || i < start {
+				continue
+			}
+			c := c03Case{Script: sc, Prior: pr, Coop: true, Late: true}
+			k, m := judgeC03("/", c)
+			out.Evals++
+			if k != "" {
+				out.Count[k]++
+				if out.Count[k] <= 3 {
+					json.NewEncoder(os.Stdout).Encode(c03Out{Viol: []c03Viol{{k, m, c}}})
+				} else {
+					json.NewEncoder(os.Stdout).Encode(c03Out{Count: map[string]int{k: 1}})
+				}
+			}
+		}
+	}
 	// a hard link whose source lies BELOW a path the selector leaves alone, into destinations where that path is a link
 	// to an outside directory holding an entry of that name: [a dir; a/X file; b -> hard link of a/X]
 	for _, child := range []string{"a/f", "a/g", "a/b"} {
@@ -819,10 +882,15 @@ func childC03(args []string) int {
 	// merge receives in which the caller's own selector / filter leaves the path a alone, into destinations where a
 	// is a link to outside: every script of length <=2
 	for _, sc := range c03Scripts(tier, 2) {
-		for _, pr := range []string{"a-symlink-out", "a-chain-out", "dest-missing", "dest-dangling"} {
+		for _, pr := range []string{"a-symlink-out", "a-chain-out", "dest-missing", "dest-dangling", "two-dirs", "a-dir-with-symlink"} {
 			// (and with a selector that selects everything: a selected directory and what is below it)
-			for _, op := range []string{"meta-merge-hide-a", "merge-filter-a", "meta-merge", "meta", "merge", ""} {
-				if (op == "merge" || op == "") != strings.HasPrefix(pr, "dest-") {
+			for _, op := range []string{"meta-merge-hide-a", "merge-filter-a", "meta-merge", "meta", "merge", "", "diffnone"} {
+				// (comparison switched off: only for the destinations with directories that the stream replaces)
+				if op == "diffnone" {
+					if pr != "two-dirs" && pr != "a-dir-with-symlink" {
+						continue
+					}
+				} else if pr == "two-dirs" || pr == "a-dir-with-symlink" || (op == "merge" || op == "") != strings.HasPrefix(pr, "dest-") {
 					continue
 				}
 				i++
